@@ -378,13 +378,16 @@ func (e *Engine) step(p *partition, row map[string]any, ts, seq int64) []map[str
 	// 1. 推进现有 run（含未界完成：mr 不属于但 run 已可接受）。
 	for _, r := range p.runs {
 		if !e.withinOk(r, ts) || r.nrows > e.maxRunRows {
+			if hasAccept(r.states) {
+				completions = append(completions, r)
+			}
 			continue // 超期/超长：丢弃
 		}
 		succ := e.advance(r, row)
+		if hasAccept(r.states) && (len(succ) == 0 || !e.lazy) {
+			completions = append(completions, r) // 未界重复（A+/A*）收尾
+		}
 		if len(succ) == 0 {
-			if hasAccept(r.states) {
-				completions = append(completions, r) // 未界重复（A+/A*）收尾
-			}
 			continue
 		}
 		for _, s := range succ {
